@@ -7,6 +7,7 @@ import (
 	"path/filepath"
 	"sort"
 	"strings"
+	"time"
 	"testing"
 
 	"pgregory.net/rapid"
@@ -451,6 +452,69 @@ func oracleC04(c c4Case) error {
 		after3 := mustSnapshot(snapRoot)
 		for _, ch := range modspec.Diff(after2, after3) {
 			return fmt.Errorf("third run (All) on unchanged inputs %s %s", ch.Kind, ch.Path)
+		}
+		// the contents decide, not the file times: a source is edited in place and keeps its modification time (restored from a
+		// backup, rsync -t, cp -p); the run must give what the same contents give in a fresh checkout whose files are all new
+		var rels []string
+		for rel := range after3 {
+			if strings.HasSuffix(rel, ".go") && !strings.HasPrefix(path.Base(rel), c.base()+".") && (!c.Sib || strings.HasPrefix(rel, "main/")) && strings.HasPrefix(after3[rel], "package ") {
+				rels = append(rels, rel)
+			}
+		}
+		sort.Strings(rels)
+		if len(rels) > 0 {
+			rel := rels[len(c.Entries)%len(rels)]
+			fn := filepath.Join(snapRoot, rel)
+			fi, err := os.Stat(fn)
+			if err != nil {
+				panic("harness: " + err.Error())
+			}
+			if err := os.WriteFile(fn, []byte(after3[rel]+"\ntype ZzEditedInPlace struct {\n\tA int\n}\n"), 0o644); err != nil {
+				panic("harness: " + err.Error())
+			}
+			_ = os.Chtimes(fn, fi.ModTime(), fi.ModTime())
+			edited := mustSnapshot(snapRoot)
+			resA := script.Run(spec(nil))
+			if err := check("run after an in-place edit", resA); err != nil {
+				return err
+			}
+			viewA := generatedView(mustSnapshot(snapRoot), c.base())
+			fresh, err := os.MkdirTemp("", "vt-fresh-checkout-")
+			if err != nil {
+				panic("harness: " + err.Error())
+			}
+			if real, err := filepath.EvalSymlinks(fresh); err == nil {
+				fresh = real
+			}
+			defer os.RemoveAll(fresh)
+			if err := edited.Restore(fresh); err != nil {
+				panic("harness: restore: " + err.Error())
+			}
+			now := time.Now()
+			_ = filepath.Walk(fresh, func(p string, info os.FileInfo, err error) error {
+				if err != nil || info.IsDir() || info.Mode()&os.ModeSymlink != 0 {
+					return nil
+				}
+				if filepath.Base(p) == "gengo.sum" {
+					return os.Chtimes(p, now.Add(-time.Hour), now.Add(-time.Hour))
+				}
+				return os.Chtimes(p, now, now)
+			})
+			rs := spec(nil)
+			rs.Dir = fresh
+			if c.Sib {
+				rs.Dir = filepath.Join(fresh, "main")
+			}
+			resB := script.Run(rs)
+			if err := check("run of the edited contents in a fresh checkout", resB); err != nil {
+				return err
+			}
+			if d := diffViews(viewA, generatedView(mustSnapshot(fresh), c.base())); d != "" {
+				return fmt.Errorf("after an in-place edit of %s that keeps the file's modification time the run gives other output than the same contents give in a fresh checkout: %s", rel, d)
+			}
+			if a, b := callSig(resA.Calls), callSig(resB.Calls); a != b {
+				return fmt.Errorf("after an in-place edit of %s that keeps the file's modification time the run sees another call sequence than a fresh checkout of the same contents:\n in place: %s\n    fresh: %s", rel, a, b)
+			}
 		}
 	}
 	return nil
